@@ -3,6 +3,7 @@ from contracts import formulas as F
 
 from contracts import formulas as FO
 from contracts import core as K
+from contracts import grammar as G
 ID = "C19"
 LEVEL = "other"
 TRUSTED = ["A3 sorted() is a stable permutation ordered by key"]
@@ -10,7 +11,7 @@ EXPLANATION = ('Deductive: _convert_to_hill_notation (sorted() as a permutation 
 
 
 def units(tier):
-    return (([F.U_HILL, F.U_HILL_NOTATION, F.L_DEN_PERMUTATION, F.U_COUNT_ATOMS, F.U_ATOMS] + F.U_FORMULA_KINDS) + [FO.U_HILL_KEY]) + [K.L_ATOM_IDENTITY]
+    return ((([F.U_HILL, F.U_HILL_NOTATION, F.L_DEN_PERMUTATION, F.U_COUNT_ATOMS, F.U_ATOMS] + F.U_FORMULA_KINDS) + [FO.U_HILL_KEY]) + [K.L_ATOM_IDENTITY]) + G.U_CONVERT_COMPOUND + [G.U_IMMUTABLE]
 
 
 def runner_tasks(tier):
